@@ -836,6 +836,9 @@ struct World
         // C33: key offering, probed for a set of EDIV / Rand values
         static const struct { std::uint16_t ediv; std::uint64_t rand; } probes[] = {
             { 0, 0 }, { 0, 1 }, { 1, 0 }, { 0xffff, ~0ull }, { NEW_EDIV, NEW_RAND }, { NEW_EDIV, 0 }, { 0, NEW_RAND }, { OLD_EDIV, OLD_RAND }, { OLD_EDIV, NEW_RAND } };
+        // input class of an illegitimate offer: the implementation completed a pairing in a step the protocol oracle rejects /
+        // no pairing is going on / a pairing is going on but not completed
+        const std::string when = failed( 32 ) ? "unverified-completion" : ref.phase == IDLE ? "idle" : ref.phase == DONE ? "completed" : "pairing-in-progress";
         for ( const auto& p : probes )
         {
             const auto got = cd->find_key( p.ediv, p.rand );
@@ -849,7 +852,7 @@ struct World
             {
                 const bool is_pair = pair_ok && std::equal( got.second.begin(), got.second.end(), ref.key );
                 const bool is_db   = db.first && got.second == db.second;
-                if ( !pair_ok && !db.first ) { fail( c, 33, "keys:offered-without-successful-pairing-or-bond:" + id, what ); break; }
+                if ( !pair_ok && !db.first ) { fail( c, 33, "keys:offered-without-pairing-or-bond:" + id + ":" + when, what ); break; }
                 if ( !is_pair && !is_db )    { fail( c, 33, "keys:wrong-key-offered:" + id, what + mc::fmt( "; pairing produced %s", mc::hex( ref.key, 16 ).c_str() ) ); break; }
                 c.cls( std::string( "keys:offered:" ) + ( is_pair ? "pairing-key" : "bond-db-key" ) + ":" + id );
             }
@@ -867,7 +870,7 @@ struct World
             const u128 nk = NEWLTK();
             const std::string what = mc::fmt( "store_bond( %s, ediv 0x%04x, rand 0x%llx )", mc::hex( g_db.key, 16 ).c_str(), g_db.ediv, (unsigned long long)g_db.rand );
             if ( !completed_this_step )
-                fail( c, 33, "keys:bond-stored-without-successful-pairing", what + " in a step in which the reference does not see a pairing complete successfully" );
+                fail( c, 33, "keys:bond-stored-without-pairing:" + when, what + " in a step in which the reference does not see a pairing complete successfully" );
             else if ( !g_db.same_mac( REMOTE() )
                    || ( lesc  && !( g_db.ediv == 0 && g_db.rand == 0 && std::equal( ref.key, ref.key + 16, g_db.key ) ) )
                    || ( !lesc && !( g_db.ediv == NEW_EDIV && g_db.rand == NEW_RAND && std::equal( nk.begin(), nk.end(), g_db.key ) ) ) )
